@@ -23,13 +23,15 @@ def registry():
     reg = {
         'C02': rules_limits.check_C02,
     }
-    for mod, names in (('rules_limits', ('C03', 'C07')), ('rules_fw', ('C01', 'C04', 'C05', 'C06', 'C08', 'C09', 'C10')),
+    for mod, names in (('rules_limits', ('C03', 'C07')), ('rules_fw', ('C04', 'C05', 'C06', 'C08', 'C09', 'C10')), ('rules_c01', ('C01',)),
                        ('rules_valid', ('C11', 'C12', 'C13')), ('rules_sim', ('C15', 'C16', 'C17', 'C18', 'C19')),
                        ('rules_ffi', ('C20',))):
         try:
             m = __import__('sa.' + mod, fromlist=['x'])
-        except ImportError:
-            continue
+        except ImportError as e:
+            if ('sa.' + mod) in str(e) or mod in str(e):
+                continue
+            raise
         for n in names:
             f = getattr(m, 'check_' + n, None)
             if f:
